@@ -101,12 +101,12 @@ def entry_points(w, u, start):
 
 
 def attr_view(w):
-    """every attribute of every object with its value (the private memo excluded: not observable)"""
+    """every attribute of every object with its value (name-mangled class-private state - the neighbour memo - excluded: not observable)"""
     out = []
     for o in w.objs:
         d = {}
         for k, v in vars(o).items():
-            if k.endswith("__qa_nb_cache"):
+            if H.is_class_private(k):
                 continue
             d[k] = [id(x) for x in v] if isinstance(v, list) else id(v) if not isinstance(v, (int, str, bool, type(None))) else v
         out.append(d)
